@@ -554,8 +554,7 @@ def run_step(ctx, shape, props):
     info = do_op(ctx, sess, side, shape["op"], "op")
     post = read(ctx, sess, side)
     check_step(ctx, side, pre, info, post, props)
-    if "C08" in props or "C09" in props:
-        ctx.require(invariant(ctx, post, side), "C08:invariant-not-preserved" if "C08" in props else "C09:invariant-not-preserved")
+    ctx.require(invariant(ctx, post, side), f"{props[0]}:invariant-not-preserved")
 
 
 def run_bmc(ctx, shape, props):
@@ -563,10 +562,10 @@ def run_bmc(ctx, shape, props):
     S = ctx.L.session
     sess = S.LDAPClient() if side == "client" else S.LDAPServer()
     st = read(ctx, sess, side)
-    ctx.require(invariant(ctx, st, side), "C08:initial-state-violates-invariant")
+    ctx.require(invariant(ctx, st, side), f"{props[0]}:initial-state-violates-invariant")
     for i, op in enumerate(shape["ops"]):
         pre = read(ctx, sess, side)
         info = do_op(ctx, sess, side, op, f"s{i}")
         post = read(ctx, sess, side)
         check_step(ctx, side, pre, info, post, props, tag=f"{i}:")
-        ctx.require(invariant(ctx, post, side), "C08:invariant-not-preserved")
+        ctx.require(invariant(ctx, post, side), f"{props[0]}:invariant-not-preserved")
